@@ -35,10 +35,24 @@ package sunlight
 //@   returns [C11] refuses-signatures-that-do-not-verify: ret1 == nil ==> (verifierAccepts(s.v, msg, s.sig) && ret0 == s.sig)
 
 //@ func sunlight.ReadTileLeaf nopanic props C08 C10 C12
-//@   defines ret2 == nil ==> ret0 != nil && *ret0 == parsedLeaf(tile) && ret1 == leafRest(tile)
-//@   returns [C10,C12] refuses-archival-leaves: ret2 == nil ==> (ret0 != nil && !ret0.RFC6962ArchivalLeaf)
-//@ func sunlight.(*LogEntry).MerkleTreeLeaf props C08 C10
+//@   ensures [C10,C12] same-parse-as-the-strict-reader: ret2 == nil ==> ret0 != nil && *ret0 == parsedLeaf(tile) && ret1 == leafRest(tile) && len(ret1) <= len(tile)
+//@   ensures [C10,C12] refuses-archival-leaves: ret2 == nil ==> (ret0 != nil && !ret0.RFC6962ArchivalLeaf)
+//@   ensures [C10,C12] parsed-entries-are-encodable: ret2 == nil ==> (len(ret0.Certificate) < 16777216 && 0 <= ret0.LeafIndex && ret0.LeafIndex < 1099511627776 && ret0.Timestamp >= 0)
+//@ func sunlight.(*LogEntry).MerkleTreeLeaf nopanic props C08 C10 C12
 //@   defines ret == mtlOf(*e)
+//@   panics-unless [C12] encodable: e != nil && len(e.Certificate) < 16777216 && (e.RFC6962ArchivalLeaf || (0 <= e.LeafIndex && e.LeafIndex < 1099511627776))
+//@   returns [C12] returns-only-for-encodable-entries: len(e.Certificate) < 16777216 && (e.RFC6962ArchivalLeaf || (0 <= e.LeafIndex && e.LeafIndex < 1099511627776))
+//@   ensures [C12] rfc6962-layout-x509: (!e.IsPrecert && (e.Timestamp >= 0 && len(e.Certificate) < 16777216 && (e.RFC6962ArchivalLeaf || (0 <= e.LeafIndex && e.LeafIndex < 1099511627776)))) ==> ret == mtlSpec(*e)
+//@   ensures [C12] rfc6962-layout-precert: (e.IsPrecert && (e.Timestamp >= 0 && len(e.Certificate) < 16777216 && (e.RFC6962ArchivalLeaf || (0 <= e.LeafIndex && e.LeafIndex < 1099511627776)))) ==> ret == mtlSpec(*e)
+
+//@ pure func extBytes(e sunlight.LogEntry) bytes = ite(e.RFC6962ArchivalLeaf, u16(0), u16(8) + marshalExt(e.LeafIndex))
+//@ pure func mtlBody(e sunlight.LogEntry) bytes = ite(e.IsPrecert, u8(0) + u8(0) + u64(e.Timestamp) + u16(1) + e.IssuerKeyHash + u24(len(e.Certificate)) + e.Certificate, u8(0) + u8(0) + u64(e.Timestamp) + u16(0) + u24(len(e.Certificate)) + e.Certificate)
+//@ pure func mtlSpec(e sunlight.LogEntry) bytes = mtlBody(e) + extBytes(e)
+//@ func sunlight.addExtensions props C10 C12
+//@   modifies b.gout, b.gerr
+//@   ensures [C10,C12] error-is-sticky: old(b.gerr) ==> b.gerr
+//@   ensures [C10,C12] unencodable-index-is-an-error: (!e.RFC6962ArchivalLeaf && (e.LeafIndex < 0 || e.LeafIndex >= 1099511627776)) ==> b.gerr
+//@   ensures [C10,C12] appends-the-leaf-index-extension: (!old(b.gerr) && (e.RFC6962ArchivalLeaf || (0 <= e.LeafIndex && e.LeafIndex < 1099511627776))) ==> (b.gout == old(b.gout) + extBytes(*e) && !b.gerr)
 
 // ---- C10: extensions
 
@@ -50,7 +64,9 @@ package sunlight
 //@   modifies b.gout
 //@   ensures [C10] appends-five-big-endian-bytes: b.gout == old(b.gout) + u40(v)
 
-//@ func sunlight.MarshalExtensions nopanic props C10
+//@ pure func marshalExt(idx int) bytes = u8(0) + u16(5) + u40(idx)
+//@ func sunlight.MarshalExtensions nopanic props C10 C12
+//@   ensures [C10,C12] exact-bytes: (0 <= e.LeafIndex && e.LeafIndex < 1099511627776) ==> ret0 == marshalExt(e.LeafIndex)
 //@   ensures [C10] refuses-out-of-range: (e.LeafIndex < 0 || e.LeafIndex >= 1099511627776) ==> ret1 != nil
 //@   ensures [C10] canonical-encoding: (0 <= e.LeafIndex && e.LeafIndex < 1099511627776) ==> (ret1 == nil && canonicalExt(ret0) && be40(ret0[3:8]) == e.LeafIndex)
 
@@ -70,6 +86,12 @@ package sunlight
 //@   returns [C10,C12] timestamp-field: ret2 == nil ==> (ret0.Timestamp == be64(tile) && 0 <= ret0.Timestamp)
 //@   returns [C10,C12] entry-type-field: ret2 == nil ==> (len(tile) >= 10 && (ret0.IsPrecert <==> be16(tile[8:10]) == 1) && (!ret0.IsPrecert <==> be16(tile[8:10]) == 0))
 //@   ensures [C10,C12] result-nonnil: ret2 == nil ==> ret0 != nil
+//@   ensures [C10,C12] rest-within-tile: len(ret1) <= len(tile)
+//@   ensures [C10,C12] parsed-entries-are-encodable: ret2 == nil ==> (len(ret0.Certificate) < 16777216 && 0 <= ret0.LeafIndex && ret0.LeafIndex < 1099511627776 && ret0.Timestamp >= 0)
+//@   defines ret2 == nil ==> *ret0 == parsedLeaf(tile) && ret1 == leafRest(tile)
+
+//@ func sunlight.cutEntry nopanic props C12
+//@   returns [C12] hash-covers-the-entry-that-is-cut: ret3 == nil ==> (ret1 == recordHash(mtlOf(parsedLeaf(tile))) && ret2 == leafRest(tile) && len(ret2) <= len(tile) && ret0 == tile[0:len(tile) - len(ret2)])
 
 //@ func sunlight.ParseTilePath props C10
 //@   call tlog.ParseTilePath requires [C10] prefix-exactly-replaced: (c_path == "tile/8/data/" + rest__1 && path == "tile/names/" + rest__1) || (c_path == "tile/8/" + rest__2 && path == "tile/" + rest__2)
@@ -83,3 +105,31 @@ package sunlight
 //@ axiom tileWithL-def: forall t tlog.Tile, l int {tileWithL(t, l)} :: tileWithL(t, l).H == t.H && tileWithL(t, l).L == l && tileWithL(t, l).N == t.N && tileWithL(t, l).W == t.W
 //@ assume func tlog.Tile.Path
 //@   ensures ret == tlogTilePath(recv)
+
+// ---- C12: the monitoring client
+
+// Bodies of `for i, e := range c.c.Entries(...)` / AllEntries: (i, e) is an entry the verifying tile client authenticated
+// at index i; only its complete parse is handed to the caller's yield function, with the same index.
+//@ assume func sunlight.(*Client).Entries$1$1#free.yield params i e
+//@ func sunlight.(*Client).Entries$1$1 props C12
+//@   call sunlight.(*Client).Entries$1$1#free.yield requires [C12] yields-only-the-parsed-authenticated-entry: c_i == i && c_e != nil && *c_e == parsedLeaf(e) && len(leafRest(e)) == 0 && (c_e.RFC6962ArchivalLeaf ==> c.cc.AllowRFC6962ArchivalLeafs)
+//@ assume func sunlight.(*Client).AllEntries$1$1#free.yield params i e
+//@ func sunlight.(*Client).AllEntries$1$1 props C12
+//@   call sunlight.(*Client).AllEntries$1$1#free.yield requires [C12] yields-only-the-parsed-authenticated-entry: c_i == i && c_e != nil && *c_e == parsedLeaf(e) && len(leafRest(e)) == 0 && (c_e.RFC6962ArchivalLeaf ==> c.cc.AllowRFC6962ArchivalLeafs)
+
+//@ func sunlight.(*Client).Entry props C12
+//@   call torchwood.(*Client).Entry requires [C12] fetches-the-requested-index: c_recv == c.c && c_tree == tree && c_index == index
+//@   ensures [C12] returns-the-parsed-authenticated-entry: ret2 == nil ==> (ret0 != nil && authParsed(c.c, tree, index, *ret0) && ret0.Timestamp >= 0 && (ret0.RFC6962ArchivalLeaf ==> c.cc.AllowRFC6962ArchivalLeafs) && (!ret0.RFC6962ArchivalLeaf ==> ret0.LeafIndex == index))
+
+//@ func sunlight.(*Client).CheckInclusion props C12
+//@   call sunlight.(*Client).Entry requires [C12] fetches-the-leaf-the-sct-names: c_c == c && c_tree == tree && c_index == ext.LeafIndex
+//@   call tls.VerifySignature requires [C12] verifies-over-the-authentic-leaf-with-the-configured-key: c_pubKey == c.cc.PublicKey && c_data == mtlOf(*entry)
+//@   returns [C12] confirmed-only-if-log-id-timestamp-index-and-signature-match: ret2 == nil ==> (s.SCTVersion == 0 && s.LogID.KeyID == sha256Of(spki) && ret0 == entry && authParsed(c.c, tree, ext.LeafIndex, *ret0) && ret0.Timestamp == s.Timestamp && (!ret0.RFC6962ArchivalLeaf ==> ret0.LeafIndex == ext.LeafIndex))
+
+//@ func sunlight.(*Client).Checkpoint props C12
+//@   call sunlight.NewRFC6962Verifier requires [C12] verifier-for-the-configured-key: c_key == c.cc.PublicKey
+//@   call note.Open requires [C12] opened-only-with-that-verifier: c_msg == signedNote && c_known == vlist1(verifier)
+//@   returns [C12] returns-only-a-verified-checkpoint: ret2 == nil ==> (ret1 != nil && openedBy(ret1, signedNote, vlist1(verifier)) && isRFCVerifier(verifier, name, c.cc.PublicKey) && ret0 == ckptOf(ret1.Text) && ret0.Origin == name)
+
+//@ func sunlight.(*Client).Issuer props C12
+//@   call x509.ParseCertificate requires [C12] parses-the-fetched-bytes: c_der == cert && sha256Of(cert) == fp
